@@ -71,6 +71,7 @@ type interpreter struct {
 	reachAlways     bool
 	curInstr        ssa.Instruction
 	frozenCount     int
+	lockDepth       int // sync.Mutex model: number of locks held
 	envCount        int
 	dbgDumped       bool
 	syncMaps        map[*value]*omap
